@@ -116,9 +116,9 @@ def run_on(fb, chk, tag=""):
                     if a[0] == "in" and not a[3] and a[2] == frozenset([0]):
                         zero_blocks.add(bi)
                     # the same test spelled `fds == 0` / `!(fds != 0)` on the count returned by the receive
-                    if a[0] == "cmp" and a[1] == "Eq" and a[3][0] == "const" and a[3][1] == 0 \
+                    if a[0] == "cmp" and a[1] == "Eq" and a[3][0] == "const" and a[3][1] == 0 and a[2][0] == "field" and a[2][2] == "1" \
                             and any(x[0] == "call" and x[1] == "recv_with_fds" for x in subterms(a[2])):
-                        zero_blocks.add(bi)
+                        zero_blocks.add(bi)   # field 1 of the receive's result = the number of descriptors
             # paths that leave through the `?` error edge of the receive itself carry no descriptors
             err_blocks = {bi for bi in cfg.reach(nxt) if any(a[0] == "notok" and a[1][0] == "call" and a[1][1] == "recv_with_fds" for a in m.atoms_at(bi))}
             good = cfg.all_paths_pass_through(nxt, cfg.returns, set(coll) | zero_blocks | err_blocks)
